@@ -79,3 +79,12 @@ info('C04',
       'the current tree, which is all it can do about it',
       'algorithm-level equivalence (DMRG/TEBD in both configurations): not compared'],
      [A_BUILD])
+info('C05',
+     'B (bounded, not proof): run-time contracts of svd (reduced), qr/lq (all modes/options), eigh/eigvalsh/eig, expm, pinv on '
+     'generated rank-2 tensors over all enumerated charge structures incl. rank-deficient, missing and zero blocks, non-blocked '
+     'legs, nonzero qtotal, complex entries: reconstruction, isometry/unitarity, S >= 0, positive diagonal, eigenpairs, '
+     'Moore-Penrose identities, sanity and truthful claims of the factors, requested total charges, contractible inner leg, '
+     'inner_qconj; both configurations.',
+     ['LAPACK numerics; the charge/leg bookkeeping of qr/_svd_worker as deductive obligations is not built (bounded only)',
+      'svd(full_matrices=True): known finding F-25, excluded from the bounded domain'],
+     [A_BUILD], configs=BOTH)
